@@ -20,8 +20,16 @@ type Scenario struct {
 	Inb      string   `json:"inb"`    // consumer of the inbound channel: prompt | never | ccall | cret
 	Err      string   `json:"err"`    // consumer of the error channel: prompt | never
 	Late     int      `json:"late"`   // sends issued after every closer returned (must be refused)
-	Forced   string   `json:"forced"` // "" | park-send | park-finally   (H2 forced schedules)
+	Forced   string   `json:"forced"` // "" | park-send | park-finally   (H2 forced schedules) | late-arm (forced through the net.Conn seam, transport.go)
 	Jitter   uint64   `json:"jitter"` // seed of the small yields that vary the schedule
+	// third-wave legs (legs3.go): the things the scenarios above never varied
+	Transport   string `json:"transport,omitempty"` // "" (loopback TCP) | pipe (net.Pipe) | unix (abstract unix-domain socket) | tls / tlsc (*tls.Conn over TCP, handshake completed; this side is the TLS server / client) | tls-silent / tlsc-silent (the TLS peer never speaks: the handshake never completes)
+	Accepted    bool   `json:"accepted,omitempty"`  // the connection under test is the ACCEPTED end of the socket pair (default: the dialling end)
+	Stats       *int   `json:"stats,omitempty"`     // nil: NewTcpConn(..., nil); else stats.New(*Stats)
+	ReadTimeout int    `json:"rtimeout,omitempty"`  // qnet.TConnReadTimeout (seconds) for this run; 0: unchanged
+	Flag        string `json:"flag,omitempty"`      // "" Go(EndpointReadWriter) | w Go(EndpointWriter)
+	Iso         bool   `json:"iso,omitempty"`       // run (and replay) in a child process (iso.go)
+	Cryptor     string `json:"cryptor,omitempty"`   // with Cipher: "" aes-128 CFB | salsa20 | twofish | new (a custom BlockCryptor whose Encrypt/Decrypt return NEW slices and leave their argument alone) | pad (custom: the output is 3 bytes longer than the input, Decrypt strips them)
 }
 
 // Sender issues SendPacket for one packet per size, in order.
@@ -32,12 +40,14 @@ type Sender struct {
 	Pace  int    `json:"pace"`  // microseconds between sends (0: none)
 	Burst bool   `json:"burst"` // no scheduling jitter between the calls (builds a backlog)
 	Delay int    `json:"delay,omitempty"` // microseconds to wait (after When) before the first call
+	Refs  []int  `json:"refs,omitempty"`  // per packet (parallel to Sizes; missing = 0): number of node references it carries (> 255: the V2 encoder refuses it)
+	Share bool   `json:"share,omitempty"` // all packets of this sender carry ONE body slice object (the sizes must be equal)
 }
 
 // Closer calls Close (graceful) or ForceClose once.
 type Closer struct {
 	Graceful bool   `json:"graceful"`
-	When     string `json:"when"` // start | senders | pwrote | inball | rfull | ccall | cret
+	When     string `json:"when"` // start | senders | pwrote | inball | rfull | ccall | cret | errgot (the terminal error was received: the connection ended by itself)
 }
 
 // Peer is the remote end (a raw TCP socket driven by the harness).
@@ -47,6 +57,8 @@ type Peer struct {
 	Tail      string `json:"tail"`   // "" | fin | rst | garbage | badcrc
 	WriteWhen string `json:"wwhen"`  // start | senders | ccall | cret
 	Pace      int    `json:"pace,omitempty"` // microseconds between the peer's frames (0: none): keeps the peer writing for a while
+	Chunk     int    `json:"chunk,omitempty"`   // > 0: the peer writes its frames in pieces of this many bytes (a short pause after each piece)
+	Hold      int    `json:"hold_ms,omitempty"` // milliseconds the peer waits (after its Read trigger) before it reads its first byte; every deadline of the run is extended by it
 }
 
 // SendRec is one SendPacket call as seen by the caller.
@@ -71,6 +83,7 @@ type CloseRec struct {
 	SentBytes int64  `json:"sent_bytes"` //
 	Running   bool   `json:"running"`    // IsRunning() right after the call returned
 	Backlog   int    `json:"backlog"`    // packets sitting in the outbound queue when the call began
+	DurMs     int    `json:"dur_ms"`     // how long the call took (an observation, never an oracle)
 }
 
 // Outcome is everything observed in one run.
@@ -82,6 +95,9 @@ type Outcome struct {
 	PeerGotAt  []int      `json:"-"`         // trace positions of those observations
 	PeerBytes  int64      `json:"peer_bytes"`
 	PeerEOF    bool       `json:"peer_eof"`
+	PeerReset  bool       `json:"peer_reset,omitempty"` // the peer's read ended with a connection reset / closed pipe (a stream end, but not a clean one)
+	StatsN     int        `json:"stats_n"`              // number of counters the connection's Stats object has
+	EndLagMs   int        `json:"end_lag_ms"`           // milliseconds between the return of the first Close/ForceClose call and the moment the peer saw the stream end (-1: not both observed; an observation, never an oracle)
 	PeerEOFAt  int        `json:"-"`
 	PeerErr    string     `json:"peer_err"`
 	PeerBad    []string   `json:"peer_bad"` // integrity problems in the peer's stream
